@@ -3,7 +3,12 @@ import ast
 D = 'src/pharmpy/workflows/model_database/local_directory.py'
 B = 'src/pharmpy/workflows/model_database/baseclass.py'
 C = 'src/pharmpy/workflows/contexts/local_directory.py'
+def text_edit(old, new):
+    def edit(src):
+        return src.replace(old, new, 1) if old in src else None
+    return edit
 MUTANTS = [
+    Mutant('annotations_shared_file', 'src/pharmpy/workflows/contexts/local_directory.py', text_edit("        return self.path / 'annotations'", "        return self._top_path / 'annotations'"), 'K9', 'annotations shared by all contexts'),
     Mutant('commit_in_finally', D, edit_node('LocalModelDirectoryDatabase.transaction', stmt_containing('yield LocalModelDirectoryDatabaseTransaction'),
            lambda seg: 'try:\n                ' + seg + '\n            finally:\n                path.unlink()'), 'K1', 'marker removed although body raised'),
     Mutant('no_commit', D, edit_node('LocalModelDirectoryDatabase.transaction', stmt_containing('path.unlink()'), to_pass), 'K1', 'marker never removed'),
